@@ -354,3 +354,181 @@ func c10UnlinkSymmetric(c *Ctx, r *Report) {
 	}
 	r.Floor("R10.8", "one-sided neighbour redirections examined", n, 3)
 }
+
+// c09WorkingCopy (R09.11): a DSL sorting function that builds the slice it
+// sorts and returns puts every element of its argument into that slice.
+func c09WorkingCopy(c *Ctx, r *Report) {
+	r.Rule("R09.11", "a sort returns a permutation: where a function of pkg/bifs or pkg/dsl/cst builds a slice in a loop, sorts it (sort.* / slices.Sort*, directly or through a helper that does) and returns it, every write into that slice inside a loop happens on every turn of that loop — a turn that can skip the write drops an element from the result")
+	sortsParam := func(f *ssa.Function) int { // index of a slice parameter that f hands to a sort API, or -1
+		if f == nil || f.Blocks == nil {
+			return -1
+		}
+		for _, b := range f.Blocks {
+			for _, in := range b.Instrs {
+				call, ok := in.(ssa.CallInstruction)
+				if !ok {
+					continue
+				}
+				cn := CalleeName(call.Common())
+				if i := strings.Index(cn, "["); i > 0 {
+					cn = cn[:i]
+				}
+				if !(stableSortAPIs[cn] || unstableSortAPIs[cn] || identicalTieSortAPIs[cn]) || len(call.Common().Args) == 0 {
+					continue
+				}
+				a := call.Common().Args[0]
+				if mi, ok := a.(*ssa.MakeInterface); ok {
+					a = mi.X
+				}
+				// a parameter captured by the comparator closure is spilled to a cell
+				if u, ok := a.(*ssa.UnOp); ok && u.Op == token.MUL {
+					if al, ok := u.X.(*ssa.Alloc); ok && al.Referrers() != nil {
+						for _, ref := range *al.Referrers() {
+							if st, ok := ref.(*ssa.Store); ok && st.Addr == ssa.Value(al) {
+								a = st.Val
+							}
+						}
+					}
+				}
+				for i, p := range f.Params {
+					if a == ssa.Value(p) {
+						return i
+					}
+				}
+			}
+		}
+		return -1
+	}
+	n := 0
+	for _, fn := range c.ModuleFunctions() {
+		if fn.Pkg == nil || fn.Blocks == nil {
+			continue
+		}
+		pp := fn.Pkg.Pkg.Path()
+		if !(strings.HasSuffix(pp, "/pkg/bifs") || strings.HasSuffix(pp, "/pkg/dsl/cst")) {
+			continue
+		}
+		// the sorted slices
+		var sorted []ssa.Value
+		for _, b := range fn.Blocks {
+			for _, in := range b.Instrs {
+				call, ok := in.(ssa.CallInstruction)
+				if !ok || len(call.Common().Args) == 0 {
+					continue
+				}
+				cn := CalleeName(call.Common())
+				if i := strings.Index(cn, "["); i > 0 {
+					cn = cn[:i]
+				}
+				var a ssa.Value
+				if stableSortAPIs[cn] || unstableSortAPIs[cn] || identicalTieSortAPIs[cn] {
+					a = call.Common().Args[0]
+				} else if sc := call.Common().StaticCallee(); sc != nil && IsModuleFunc(sc) {
+					if i := sortsParam(sc); i >= 0 && i < len(call.Common().Args) {
+						a = call.Common().Args[i]
+					}
+				}
+				if a == nil {
+					continue
+				}
+				if mi, ok := a.(*ssa.MakeInterface); ok {
+					a = mi.X
+				}
+				if _, ok := a.Type().Underlying().(*types.Slice); ok {
+					sorted = append(sorted, a)
+				}
+			}
+		}
+		if len(sorted) == 0 {
+			continue
+		}
+		// all versions of those slices, back to where they are made
+		versions := map[ssa.Value]bool{}
+		cells := map[*ssa.Alloc]bool{}
+		made := false
+		var back func(v ssa.Value, d int)
+		back = func(v ssa.Value, d int) {
+			if d > 12 || versions[v] {
+				return
+			}
+			versions[v] = true
+			switch x := v.(type) {
+			case *ssa.MakeSlice:
+				made = true
+			case *ssa.Const:
+				made = true
+			case *ssa.Phi:
+				for _, e := range x.Edges {
+					back(e, d+1)
+				}
+			case *ssa.Slice:
+				back(x.X, d+1)
+			case *ssa.Call:
+				if bi, ok := x.Call.Value.(*ssa.Builtin); ok && bi.Name() == "append" {
+					back(x.Call.Args[0], d+1)
+				}
+			case *ssa.UnOp:
+				// a local spilled to memory (captured by the comparator closure)
+				if al, ok := x.X.(*ssa.Alloc); ok && x.Op == token.MUL && al.Referrers() != nil {
+					cells[al] = true
+					for _, ref := range *al.Referrers() {
+						if st, ok := ref.(*ssa.Store); ok && st.Addr == ssa.Value(al) {
+							back(st.Val, d+1)
+						}
+					}
+				}
+			}
+		}
+		for _, a := range sorted {
+			back(a, 0)
+		}
+		if !made {
+			continue
+		}
+		isVersion := func(v ssa.Value) bool {
+			if versions[v] {
+				return true
+			}
+			if u, ok := v.(*ssa.UnOp); ok && u.Op == token.MUL {
+				if al, ok := u.X.(*ssa.Alloc); ok && cells[al] {
+					return true
+				}
+			}
+			return false
+		}
+		loops := naturalLoops(fn)
+		k := 0
+		for _, b := range fn.Blocks {
+			l := innermostLoop(loops, b)
+			if l == nil {
+				continue
+			}
+			for _, in := range b.Instrs {
+				write := false
+				switch x := in.(type) {
+				case *ssa.Store:
+					if ia, ok := x.Addr.(*ssa.IndexAddr); ok && isVersion(ia.X) {
+						write = true
+					} else if fa, ok := x.Addr.(*ssa.FieldAddr); ok {
+						if ia, ok := fa.X.(*ssa.IndexAddr); ok && isVersion(ia.X) {
+							write = true
+						}
+					}
+				case *ssa.Call:
+					if bi, ok := x.Call.Value.(*ssa.Builtin); ok && bi.Name() == "append" && isVersion(x.Call.Args[0]) {
+						write = true
+					}
+				}
+				if !write {
+					continue
+				}
+				k++
+				n++
+				key := fmt.Sprintf("%s: write #%d into the slice it sorts", SSAName(fn), k)
+				r.Check(l.everyTurn(b), "R09.11", key, c.Rel(in.Pos()), "on every turn of its loop",
+					fmt.Sprintf("%s fills the slice it sorts and returns in a loop that can go round without storing an element: the result of the sort is then not a permutation of the argument", SSAName(fn)))
+			}
+		}
+	}
+	r.Floor("R09.11", "loop writes into slices that are built, sorted and returned", n, 3)
+}
